@@ -2,6 +2,7 @@ package gvc
 
 import (
 	"fmt"
+	"time"
 	"regexp"
 	"go/ast"
 	"os"
@@ -104,6 +105,9 @@ func (vc *VC) pathEnd() {
 	vc.paths++
 	if vc.paths > vc.MaxPaths {
 		vc.fail(fmt.Errorf("path limit %d exceeded in %s", vc.MaxPaths, vc.fnName))
+	}
+	if !vc.deadline.IsZero() && time.Now().After(vc.deadline) {
+		vc.fail(fmt.Errorf("generation time limit exceeded in %s (%d paths so far)", vc.fnName, vc.paths))
 	}
 }
 
@@ -395,6 +399,10 @@ func (vc *VC) instr(st *State, fr *Frame, in ssa.Instruction, k func(*State, *Fr
 		a := vc.alloc(st, "clo")
 		fr.vals[x] = a
 		fr.closures[x] = ci
+		if vc.closureByRef == nil {
+			vc.closureByRef = map[string]*closureInfo{}
+		}
+		vc.closureByRef[a.S] = ci
 		if fr.top && st.ctx != nil && st.ctx.blk != nil {
 			for i, ac := range st.ctx.blk.AtClosure {
 				if ac.Callee != "" {
@@ -1352,6 +1360,10 @@ func (st *State) escape(v T) {
 // limit.  `unsat` of the relaxation is sound evidence that the branch cannot
 // be taken; anything else keeps the branch.
 func (vc *VC) feasible(st *State) bool {
+	if !vc.deadline.IsZero() && time.Now().After(vc.deadline) {
+		vc.fail(fmt.Errorf("generation time limit exceeded in %s (%d paths so far)", vc.fnName, vc.paths))
+		return false
+	}
 	if vc.pure > 0 || len(st.trail) < 6 {
 		return true
 	}
